@@ -7,6 +7,7 @@ class RD(SeqCheck):
     hbin = "h_rd"
     model_entry = "rd_model"
     oracle_entry = "rd_oracle"
+    overlay = {"replaydetector/verif_export.go": "replaydetector/verif_export.go"}
     quick_n = 4000
     thorough_n = 200000
     rule = ("histories of Check(seq)/accept on New and WithWrap detectors; window and maximum drawn from edge-biased "
@@ -19,6 +20,8 @@ class RD(SeqCheck):
                    "Go uint is 64 bit (amd64)"]
 
     def is_nontrivial(self, conf, ops, obs):
+        if conf.split()[:1] == ["2"]:
+            return len(segs(ops)) >= 10
         o = segs(obs)
         acc = sum(1 for x in o if x.startswith("1 ") and not x.endswith("-1"))
         ref = sum(1 for x in o if x.startswith("0"))
